@@ -435,6 +435,14 @@ impl Model {
             return Err(self.constraint_validation_errors[0].clone());
         }
         
+        // A model that exceeded its memory limit while being built is not searched
+        if self.memory_limit_exceeded {
+            return Err(SolverError::MemoryLimit {
+                usage_mb: Some(self.estimated_memory_mb() as usize),
+                limit_mb: self.config.max_memory_mb.map(|x| x as usize),
+            });
+        }
+        
         // Record start time for initialization time tracking
         let init_start = std::time::Instant::now();
         
@@ -557,6 +565,10 @@ impl Model {
     /// let solutions: Vec<_> = m.minimize_and_iterate(x).collect();
     /// ```
     pub fn minimize_and_iterate(self, objective: impl View) -> impl Iterator<Item = Solution> {
+        // A model that exceeded its memory limit while being built is not searched
+        if self.memory_limit_exceeded {
+            return Box::new(std::iter::empty()) as Box<dyn Iterator<Item = Solution>>;
+        }
         // First try specialized optimization before falling back to search
         match self.try_optimization_minimize(&objective) {
             Some(solution) => {
@@ -595,6 +607,14 @@ impl Model {
         // Check for constraint validation errors first
         if !self.constraint_validation_errors.is_empty() {
             return Err(self.constraint_validation_errors[0].clone());
+        }
+        
+        // A model that exceeded its memory limit while being built is not searched
+        if self.memory_limit_exceeded {
+            return Err(SolverError::MemoryLimit {
+                usage_mb: Some(self.estimated_memory_mb() as usize),
+                limit_mb: self.config.max_memory_mb.map(|x| x as usize),
+            });
         }
         
         // Record start time for initialization time tracking
@@ -685,6 +705,10 @@ impl Model {
     /// let solutions: Vec<_> = m.maximize_and_iterate(x).collect();
     /// ```
     pub fn maximize_and_iterate(self, objective: impl View) -> impl Iterator<Item = Solution> {
+        // A model that exceeded its memory limit while being built is not searched
+        if self.memory_limit_exceeded {
+            return Box::new(std::iter::empty()) as Box<dyn Iterator<Item = Solution>>;
+        }
         // First try specialized optimization before falling back to search
         match self.try_optimization_maximize(&objective) {
             Some(solution) => {
@@ -1691,6 +1715,14 @@ impl Model {
     /// Internal helper that validates the model and optimizes constraints before search.
     /// This ensures all solving methods benefit from validation and constraint optimization.
     fn prepare_for_search(mut self) -> Result<(crate::variables::Vars, crate::constraints::props::Propagators, Vec<crate::lpsolver::csp_integration::LinearConstraint>), crate::core::error::SolverError> {
+        // A model that exceeded its memory limit while being built is not searched
+        if self.memory_limit_exceeded {
+            return Err(SolverError::MemoryLimit {
+                usage_mb: Some(self.estimated_memory_mb() as usize),
+                limit_mb: self.config.max_memory_mb.map(|x| x as usize),
+            });
+        }
+
         // STEP 0: Infer bounds for unbounded variables using constraint AST analysis
         // This happens BEFORE materialization so we can analyze all constraints
         // and extract better bounds than the simple variable-context inference at creation time
